@@ -205,3 +205,61 @@ def run(repo: Repo, rep: Report, tier: str) -> None:
              "and the placer keeps the flag for a literal that was already a literal in the IR", select=lambda o: "never for the IR's own literal" in o.construct, floor=2)
     _borrow2(repo, rep, "C13", "C13-R3", "C02-R6", "a member read from a bundle (`b[\"t\"]`) keeps the name t whatever signal the bundle's own producer was resolved to: the name resolver "
              "passes explicit names through on the strength of the name alone", floor=2)
+
+    # ---------------- R8 ---------------------------------------------------------------
+    rep.rule("C02-R8", "a compile-time output value of a bundle filter is the program's: wherever the lowering replaces a missing constant by a literal default (`if c is None: c = <literal>`), "
+             "the constant was looked for with the lowerer's symbol resolver, so int variables, int parameters and loop iterators count as constants")
+    n8 = 0
+    for f8 in el.methods.values():
+        for st in walk_local(f8.node):
+            if not (isinstance(st, ast.If) and isinstance(st.test, ast.Compare) and isinstance(st.test.ops[0], ast.Is) and isinstance(st.test.left, ast.Name)
+                    and isinstance(st.test.comparators[0], ast.Constant) and st.test.comparators[0].value is None):
+                continue
+            var8 = st.test.left.id
+            if not any(isinstance(x, ast.Assign) and isinstance(x.targets[0], ast.Name) and x.targets[0].id == var8 and isinstance(x.value, ast.Constant) for x in st.body):
+                continue
+            defs8 = [x for x in walk_local(f8.node) if isinstance(x, ast.Assign) and isinstance(x.targets[0], ast.Name) and x.targets[0].id == var8
+                     and isinstance(x.value, ast.Call) and call_name(x.value) == "extract_constant_int"]
+            for d8 in defs8:
+                n8 += 1
+                ok8 = kwarg(d8.value, "symbol_resolver") is not None or len(d8.value.args) >= 3
+                rep.check(ok8, "C02-R8", f"{f8.short}: constant with a literal default is extracted with the symbol resolver", "symbol_resolver passed" if ok8 else
+                          "no symbol resolver: `int n = 7; Bundle f = (b > 3) : n;` outputs the default 1 per kept member instead of 7", f8.loc(d8))
+    rep.floor("C02-R8", "defaulted constant extractions", n8, 1)
+
+    # ---------------- R9 ---------------------------------------------------------------
+    rep.rule("C02-R9", "unary operators act member-wise on a bundle: the analyzer gives `-b` the operand's (bundle) type, so lower_unary_op decides the bundle case before it "
+             "builds scalar nodes — a scalar arithmetic node with a bundle operand names no signal at all")
+    an9 = repo.func("SemanticAnalyzer.infer_expr_type")
+    can9 = canon(an9)
+    un_br = [n for n in walk_local(an9.node) if isinstance(n, ast.If) and "isinstance(expr, UnaryOp)" in norm(n.test)]
+    passes_operand_type = bool(un_br) and any(isinstance(r, ast.Return) and r.value is not None and can9.text(r.value) == "self.get_expr_type(expr.expr)" for x in un_br[0].body for r in ast.walk(x))
+    lu = el.methods["lower_unary_op"]
+    g9 = CFG(lu.node)
+    clu = canon(lu)
+    scalar_nodes = [s for s in g9.stmts() if not isinstance(s, (ast.If, ast.For, ast.While, ast.Try, ast.With)) and any(
+        call_name(c) in ("arithmetic", "decider") and isinstance(c.func, ast.Attribute) and "ir_builder" in norm(c.func.value) for c in calls_in(s))]
+    bundle_ifs = [s for s in g9.stmts() if isinstance(s, ast.If) and clu.text(s.test) == "isinstance(self.lower_expr(expr.expr), BundleRef)"
+                  and s.body and isinstance(s.body[-1], ast.Return)]
+    exits_all = bool(bundle_ifs) and all(any(isinstance(x, ast.Return) for x in ast.walk(b)) for b in [bundle_ifs[0]])
+    ok9 = (not passes_operand_type) or (exits_all and all(any(g9.dominates(bi, sn) for bi in bundle_ifs) for sn in scalar_nodes))
+    rep.floor("C02-R9", "scalar node constructions in lower_unary_op", len(scalar_nodes), 2)
+    rep.check(ok9, "C02-R9", "lower_unary_op handles a bundle operand before the scalar constructions", "analyzer rejects bundles here" if not passes_operand_type else
+              ("`isinstance(<operand>, BundleRef)` branch returns first" if ok9 else
+               "no bundle branch: `Bundle n = -b;` becomes a scalar `*` whose left operand is the text of the bundle reference; nothing is computed"), lu.loc())
+
+    # ---------------- R10 --------------------------------------------------------------
+    rep.rule("C02-R10", "a bundle built from bundles keeps every member: when the edges out of a wire merge are expanded to its sources, a source that is itself a wire merge "
+             "(`{ {b, k}, z }`) is expanded in turn — an edge whose source is a merge id names no entity and is dropped, and the inner members never reach the consumer")
+    xm = repo.func("ConnectionPlanner._expand_merge_edges")
+    cxm = canon(xm)
+    mk = [c for c in calls_in(xm.node, "CircuitEdge")]
+    if not mk:
+        raise AnalysisError("C02-R10: edge construction not found in _expand_merge_edges")
+    for i10, c10 in enumerate(mk):
+        gs10 = cguards(xm, stmt_of(xm, c10))
+        screened = any((not pol) and "wire_merge_junctions.get(" in g and "source_id" in g for g, pol in gs10) or any(
+            (not pol) and " in wire_merge_junctions" in g and "source_id" in g for g, pol in gs10)
+        rep.check(screened, "C02-R10", f"_expand_merge_edges: expanded edge #{i10 + 1} never starts at an inner merge",
+                  "inputs that are merges themselves are expanded first" if screened else
+                  "an input that is itself a wire merge becomes the edge's source: `Bundle m = { {b, k}, z };` wires only z to the consumer", xm.loc(c10))
